@@ -75,6 +75,8 @@ class C08Run(object):
                 ent['singleton'] = True
             if socks and wc.get('use_sockets'):
                 ent['use_sockets'] = True
+            for hname, fn in (wc.get('ini_hooks') or {}).items():
+                ent['hooks.%s' % hname] = 'circus_sim.hookmods.%s' % fn
             ws.append(ent)
             w.mix[wc['marker']] = wc.get('mix')
         circ = {'check_delay': self.cfg.get('check_delay', 1.0),
@@ -295,6 +297,15 @@ class C08Run(object):
         k = w.kernel
         me = k.getpid_value
         pre = self.pre
+        if w.sim.hung and self.trigger_t is not None:
+            # a daemon that spins for ever inside its shutdown never exits
+            self.viol('daemon_did_not_exit',
+                      '%s at +%.3f s: the daemon hangs in an unbounded '
+                      'busy-wait (%s) and never exits'
+                      % (self.trigger_how, self.trigger_t - EPOCH,
+                         str(w.sim.hung)[:160]),
+                      how=self.trigger_how, slot='hung')
+            return
         if w.sim.hung:
             self.aborted = 'daemon_hung'
             return
@@ -482,6 +493,14 @@ class C08(Prop):
         cfg['max_vtime'] = 900.0
         for wc in cfg['watchers']:
             wc['use_sockets'] = rng.random() < 0.5
+            if rng.random() < 0.12:
+                # hooks given by dotted name in the file; whatever they
+                # answer the shutdown has to complete
+                wc['ini_hooks'] = dict(
+                    (h, rng.choice(['veto', 'veto', 'agree', 'fail']))
+                    for h in rng.sample(['before_signal', 'after_signal',
+                                         'before_stop', 'after_stop'],
+                                        rng.choice([1, 2])))
         nw = len(cfg['watchers'])
         ops = []
         t = 0.0
